@@ -22,8 +22,12 @@ THEOREMS = [
     ("Anytree.Props.C02.setParent_effect", "full"),
     ("Anytree.Props.C02.setParent_none_effect", "full"),
     ("Anytree.Props.C02.delChildren_effect", "full"),
+    ("Anytree.Props.C02.setChildren_eq_spec", "full"),
+    ("Anytree.Props.C02.setChildren_effect", "full"),
+    ("Anytree.Props.C02.setChildren_refusal", "full"),
+    ("Anytree.Props.C02.checkChildren_eq_firstBad", "full"),
 ]
-NOT_COVERED = ['setChildren_eq_spec / setChildren_effect (children assignment = closed form) and ctor_eq_assignments are not yet proved in Lean; they are exercised by the correspondence run against the same closed-form specification']
+NOT_COVERED = ["the mirror's outcome for a children assignment that the specification refuses with LoopError (the restore path) and ctor_eq_assignments are not proved in Lean; both are compared against the closed-form specification by the correspondence run"]
 PREDICATE_SPEC = True
 RULE = ("every ordered labelled forest over k nodes (quick 3, thorough 4) x every call (children sequences up to length "
         "3 quick / 3 thorough, sampled 1/4 for k=4), both flavours; plus seeded random fault-free histories up to length "
